@@ -305,3 +305,5 @@ def run(ctx):
     C16.r7_discard_frees(ctx, 'C17.R8')   # a reset that discards DATA also returns the window behind it
     C07.r1_notify_all(ctx, 'C17.R9')      # an I/O error reaches every stream with its own kind, on every exit
     boundaries.check_guards(ctx, 'C17.RG', 'C17')
+    from .. import boundaries as _b
+    _b.check_predicates(ctx, 'C17.RP', 'C17')
